@@ -1513,21 +1513,40 @@ def threads_exploration(nthreads: int, rounds: int) -> dict:
     def build():
         return [Selector(e, parser=XPath31Parser) for e in THREAD_EXPRS]
 
+    hang = threading.Event()
+
     def run_all(sels):
         out = []
         for d in docs:
             for s in sels:
+                if hang.is_set():
+                    out.append(('not run',))
+                    continue
                 try:
                     out.append(_proj_result(s.select(d)))
+                except (SelfDeadlock, LockTimeout):
+                    _installed_world.aborted.discard(_installed_world.tid())
+                    hang.set()
+                    out.append(('hung',))
                 except Exception as e:
                     out.append(('raised', type(e).__name__, str(getattr(e, 'code', None))))
         return out
 
-    before = snapshot_globals(None)
+    # the real C library and a real lock, but acquire() has the hang detector's timeout
+    w = World('real', acquire_timeout=30.0)
+    w.register(99)
+    install(w)
+    before = snapshot_globals(w)
     expected = run_all(build())
+    seq_hung = hang.is_set()
+    if w.lock.locked():
+        w.lock.owner = 0
+        w.lock._l.release()
+    hang.clear()
     results: list = [None] * nthreads
 
     def work(i):
+        w.register(i + 1)
         sels = build()                     # independent Selector objects
         res = []
         for _ in range(rounds):
@@ -1555,7 +1574,10 @@ def threads_exploration(nthreads: int, rounds: int) -> dict:
                 if x != y:
                     diffs.append({'thread': i, 'round': rnd_i, 'doc': k // len(THREAD_EXPRS),
                                   'expr': THREAD_EXPRS[k % len(THREAD_EXPRS)], 'sequential': x, 'concurrent': y})
-    mon = diff_globals(before, snapshot_globals(None))
+    mon = diff_globals(before, snapshot_globals(w))
+    uninstall()
+    if seq_hung or hang.is_set():
+        mon.append('hung')
     return {'evaluations': nthreads * rounds * len(expected), 'diffs': diffs, 'alive': alive, 'monitor': mon,
             'nonerror': sum(1 for x in expected if not (isinstance(x, tuple) and x and x[0] == 'raised'))}
 
@@ -1657,10 +1679,13 @@ def _report(chk: core.Check, feat: dict, case: dict, exp, obs, what: str, count:
                 break
 
 
-def _in_child(fn, arg):
+def _in_child(fn, arg, timeout=1800):
     import multiprocessing as mp
     with mp.get_context('fork').Pool(1) as pool:
-        return pool.apply(fn, (arg,))
+        try:
+            return pool.apply_async(fn, (arg,)).get(timeout=timeout)
+        except mp.TimeoutError:
+            raise tla.MachineryError(f'{fn.__name__} did not finish within {timeout}s (a hang the detectors missed)')
 
 
 def _threads_job(arg):
@@ -1747,15 +1772,17 @@ def run(chk: core.Check) -> None:
     f_mon = ex.submit(monitor_paths, chk)
     f_ev = ex.submit(validate_traces, chk, eval_log, 'evals', 1, 4 if tier == 'quick' else 8)
     f_st = ex.submit(validate_traces, chk, stress_log, 'stress', 3, 2 if tier == 'quick' else 6)
-    # binding self-test: an intact trace is accepted, the same trace without its `release` is rejected
-    st_log = []
-    for rec in eval_recs:
-        evs = [e for e in eval_log if e['tr'] == rec['tr']]
-        if rec['outcome'][0] == 'value' and any(e['e'] == 'release' for e in evs) and not rec['obs']:
-            good = [dict(e, tr=900002) for e in evs]
-            k = max(i for i, e in enumerate(evs) if e['e'] == 'release')
-            st_log = [dict(e, tr=900001) for i, e in enumerate(evs) if i != k] + good
-            break
+    # binding self-test on hand-written traces (independent of the code under test): the canonical trace of
+    # one compare() is accepted, the same trace without its `release` and one with a corrupted field are not
+    def _tr(tr, evs):
+        out = [{'tr': tr, 't': 0, 's': 0, 'e': 'reset', 'v': '', 'r': '', 'inst': ['L1'], 'lc0': 'C'}]
+        for k, (e, v, r_) in enumerate(evs):
+            out.append({'tr': tr, 't': 1, 's': k + 1, 'e': e, 'v': v, 'r': r_, 'inst': [], 'lc0': ''})
+        return out
+    canon = [('begin', '', ''), ('acquire', '', ''), ('query', 'C', ''), ('set', 'L1', 'ok'), ('set', 'C', 'ok'),
+             ('release', '', ''), ('end', '', 'value')]
+    st_log = (_tr(900001, [e for e in canon if e[0] != 'release']) + _tr(900002, canon) +
+              _tr(900003, [(e, 'L1' if (e, v) == ('set', 'C') else v, r_) for e, v, r_ in canon]))
     f_self = ex.submit(validate_traces, chk, st_log, 'selftest', 1, 2)
 
     results = {}
@@ -1796,9 +1823,9 @@ def run(chk: core.Check) -> None:
         'replay': {n: {k: (sorted(v) if isinstance(v, (set, frozenset)) else v) for k, v in kw.items()}
                    for n, kw in REPLAY_CONFIGS[tier]},
         'globals': {k: sorted(v) for k, v in GLOBALS_CONSTS[tier].items()}}
-    if set(self_acc) != {900002} or [x[0] for x in self_rej] != [900001]:
+    if set(self_acc) != {900002} or sorted(x[0] for x in self_rej) != [900001, 900003]:
         raise tla.MachineryError(f'binding B self-test: accepted={sorted(self_acc)} rejected={[x[0] for x in self_rej]} '
-                                 f'(an intact trace must be accepted, the one without its release rejected)')
+                                 f'(the canonical trace must be accepted, the ones without release / with a wrong restore rejected)')
 
     # ---- stage C: binding A -------------------------------------------------------------------
     t0 = time.time()
@@ -1935,7 +1962,7 @@ def run(chk: core.Check) -> None:
     chk.coverage['binding_B'] = {'eval_traces': len(eval_recs), 'eval_events': len(eval_log), 'stress_traces': len(stress_recs),
                                  'stress_events': len(stress_log), 'rejected': len(ev_rej) + len(st_rej),
                                  'eval_traces_on_lock_path': lockpath,
-                                 'self_test': 'intact trace accepted, trace without its release rejected'}
+                                 'self_test': 'canonical trace accepted; without its release: rejected; restoring the wrong locale: rejected'}
 
     # ---- Globals ---------------------------------------------------------------------------------
     r, dot = results['globals']
